@@ -170,6 +170,10 @@ impl D {
                 }
                 point = true;
             } else if c == '_' {
+                // rust_decimal accepts an underscore only after the first digit
+                if !any {
+                    return None;
+                }
                 continue;
             } else if let Some(d) = c.to_digit(10) {
                 m = m.checked_mul(10)?.checked_add(d as u128)?;
